@@ -6,6 +6,7 @@ KF-binary-matching: static hash join, include labels appended, duplicate detecti
 samples that meet). The theorems below cover the parts that agree and exhibit the deviation.
 -/
 import PromqlVerif.Proofs.Den
+import PromqlVerif.Proofs.JoinPos
 namespace PromqlVerif.C05
 open PromqlVerif Val
 
@@ -75,5 +76,47 @@ theorem engine_accepts_implicit_many_to_one :
     (j.outputs == [[⟨"a", "x"⟩], [⟨"a", "x"⟩]] &&
       isOkWith (engVectorBinop "+" false .oneToOne j [(0, (1 : Int)), (1, 2)] [(0, 1)]) [(0, 2), (1, 3)]) = true := by
   decide +kernel
+
+/-! ### where the engine's join is right: unique match keys (towards a positive theorem)
+
+The known finding KF-binary-matching is about several series per match key. With pairwise distinct
+keys on both sides of a one-to-one match the pieces below hold; composing them into "the engine's
+step output is the reference's up to order" additionally needs the characterisation of `engJoin`'s
+index tables under unique keys, which is not done. -/
+
+/-- the reference engine, one-to-one, distinct match keys on both sides: never an error, one output
+per left-hand sample with a partner that passes the comparison, in left-hand order -/
+theorem reference_with_unique_keys (op : String) (bool : Bool) (m : Matching) (hc : m.card = .oneToOne)
+    (lhs rhs : Vec V) (hl : (lhs.map fun x => sigLabels m x.1).Nodup) (hr : (rhs.map fun x => sigLabels m x.1).Nodup) :
+    vectorBinop op bool m lhs rhs = .ok (lhs.filterMap (refPair op bool m rhs)) :=
+  vectorBinop_unique op bool m hc lhs rhs hl hr
+
+/-- the engine's first pass: with one output per left-hand series and none shared, it never reports
+a duplicate and fills the slots in sample order -/
+theorem engine_first_pass (j : Join) (lhs : IdVec V)
+    (hinj : ∀ x ∈ lhs, ∀ y ∈ lhs, ∀ o, j.highIdx.getD x.1 none = some o → j.highIdx.getD y.1 none = some o → x.1 = y.1)
+    (hids : (lhs.map (·.1)).Pairwise (· ≠ ·)) :
+    lhsPass .oneToOne j lhs = .ok (lhs.filterMap fun x => (j.highIdx.getD x.1 none).map fun o => (o, x.2)) :=
+  lhsPass_eq j lhs hinj hids
+
+/-- the engine's second pass: with at most one output per right-hand series and none shared, it
+never reports a duplicate and emits one probe per right-hand sample, in sample order -/
+theorem engine_second_pass (op : String) (bool : Bool) (j : Join) (slotVal : Nat → Option V) (rhs : IdVec V)
+    (hone : ∀ y ∈ rhs, (j.lowIdx.getD y.1 []).length ≤ 1)
+    (hinj : ∀ y ∈ rhs, ∀ y' ∈ rhs, ∀ o, o ∈ j.lowIdx.getD y.1 [] → o ∈ j.lowIdx.getD y'.1 [] → y.1 = y'.1)
+    (hids : (rhs.map (·.1)).Pairwise (· ≠ ·)) :
+    (outerFold (vbStep op bool .oneToOne slotVal) (rhsOutsOf .oneToOne j) rhs (.ok ([], []))).map (·.1)
+      = .ok (rhs.filterMap (probe op bool j slotVal)) :=
+  rhsPass_eq op bool j slotVal rhs hone hinj hids
+
+/-- the reference enumerates the matched pairs from the left, the engine from the right: the same
+outputs up to order, for any partial bijection between the two sides and any emission -/
+theorem matched_pairs_from_either_side {β : Type} (pm pmInv : Nat → Option Nat)
+    (hpm : ∀ i l, pm i = some l ↔ pmInv l = some i) (lhs rhs : IdVec V)
+    (hl : (lhs.map (·.1)).Pairwise (· ≠ ·)) (hr : (rhs.map (·.1)).Pairwise (· ≠ ·))
+    (e : Nat × V → Nat × V → Option β) :
+    (lhs.filterMap fun x => (pm x.1).bind fun l => (rhs.find? (fun z => z.1 == l)).bind fun y => e x y).Perm
+      (rhs.filterMap fun y => (pmInv y.1).bind fun i => (lhs.find? (fun z => z.1 == i)).bind fun x => e x y) :=
+  matched_perm pm pmInv hpm lhs rhs hl hr e
 
 end PromqlVerif.C05
